@@ -22,10 +22,10 @@ NPROC = int(os.environ.get("VERIF_PROCS", "0")) or min(16, os.cpu_count() or 4)
 # histories per tier, number of distinct hash seeds (workers), watchdog seconds
 TIERS = {
     "C07": {"quick": (1920, 16, 600), "thorough": (46080, 64, 3600)},
-    "C19": {"quick": (2048, 16, 600), "thorough": (122880, 64, 3600)},
+    "C19": {"quick": (3072, 16, 600), "thorough": (122880, 64, 3600)},
     "C20": {"quick": (10240, 16, 600), "thorough": (327680, 64, 3600)},
 }
-TRACE_RUNS = {"C07": 16, "C19": 64, "C20": 192}  # histories executed by the traced (reach-probe) worker
+TRACE_RUNS = {"C07": 12, "C19": 24, "C20": 96}  # histories executed by the traced (reach-probe) worker
 BLOCK = 16  # consecutive run indices (one full subject-type rotation) per deal
 
 RULES = {
